@@ -637,8 +637,8 @@ def gen_mesh_specs(ctx):
     three = [(s, d, p) for s in itertools.product(range(1, 5), range(1, 4), range(1, 4)) for d in compositions(s)
              for p in itertools.product((False, True), repeat=3)]
     if not thorough:
-        two = rng.sample(two, 260)
-        three = rng.sample(three, 200)
+        two = rng.sample(two, 420)
+        three = rng.sample(three, 320)
     for s, d, p in two + three:
         specs.append(cart_spec(rng, s, d, p))
     # spherical / polar: every N <= 12 (thorough) or <= 8 (quick), every chunk count
@@ -656,7 +656,7 @@ def gen_mesh_specs(ctx):
         specs.append({"cls": "CylindricalSymGrid", "shape": [nr, nz], "bounds": [[0, rng.choice([1, 2.5, 3])], zb],
                       "periodic": [False, pz], "dec": [1, c]})
     # larger seeded ones (uneven chunking where linspace and the integer formula may differ)
-    for _ in range(ctx.budget(12, 80)):
+    for _ in range(ctx.budget(16, 240)):
         dim = rng.choice([1, 1, 2, 3])
         if dim == 1:
             shape = [rng.randint(13, 400)]
@@ -675,7 +675,7 @@ def gen_mesh_specs(ctx):
         dimn = len(sp["shape"])
         if sp.get("large"):
             sp["fields"] = []
-        elif dimn == 1 or rng.random() < (0.5 if thorough else 0.35):
+        elif dimn == 1 or rng.random() < ((1.0 if dimn == 2 else 0.5) if thorough else 0.35):
             sp["fields"] = ["scalar", "vector", "tensor", "collection"] if rng.random() < 0.5 else \
                 [rng.choice(["scalar", "vector"]), rng.choice(["tensor", "collection"])]
         else:
@@ -686,7 +686,7 @@ def gen_mesh_specs(ctx):
 def gen_malformed(ctx):
     rng = ctx.rng
     specs = []
-    for _ in range(ctx.budget(60, 400)):
+    for _ in range(ctx.budget(80, 1000)):
         kind = rng.choice(["too-many", "too-many", "bad-list", "radial", "hollow", "long", "minus-one"])
         dim = rng.choice([1, 2, 3])
         shape = [rng.randint(1, 6) for _ in range(dim)]
@@ -766,7 +766,7 @@ def bc_for(rng, spec, rank_in, grid_axes):
 def gen_op_specs(ctx):
     rng = ctx.rng
     specs = []
-    n = ctx.budget(220, 1600)
+    n = ctx.budget(260, 4000)
     for i in range(n):
         fam = rng.choice(["cart1", "cart2", "cart2", "cart3", "sph", "polar", "cyl", "cyl"])
         if fam.startswith("cart"):
@@ -1172,7 +1172,7 @@ def run(ctx):
     # ---- leg 5: operator equivalence --------------------------------------------------------------
     ops = gen_op_specs(ctx)
     op_obs = run_many("harness.c17", "op_worker", ops, env=env, procs=16)
-    njit = ctx.budget(4, 16)
+    njit = ctx.budget(4, 32)
     jit_specs = [dict(s) for s in ops if math.prod(s["dec"]) in (2, 3) and s["op"] in ("laplace", "gradient", "divergence")
                  and "expr" not in json.dumps(s["bc"]) and "virtual_point" not in json.dumps(s["bc"])][:njit]
     jit_obs = run_many("harness.c17", "op_worker", jit_specs, env={"OMP_NUM_THREADS": "1", "NUMBA_NUM_THREADS": "1"},
